@@ -39,6 +39,8 @@ THEOREMS = [
     "PorepyVerif.C14.own_face_regions_inside",
     "PorepyVerif.C14.own_cell_regions_inside",
     "PorepyVerif.C14.affected_face_regions_inside",
+    "PorepyVerif.C14.partialFreshSplit_rows",
+    "PorepyVerif.C14.partialFreshSplit_coded",
 ]
 LEAN_MODULES = ["PorepyVerif.C14.Props"]
 AUDIT = "PorepyVerif/C14/Audit.lean"
@@ -50,7 +52,9 @@ RULE = ("grid (2-D/3-D Cartesian with perturbed interior nodes, structured trian
         "(num_subproblems 1..9 or max_memory = peak/k; 35% of the cases come from a multi-owner family - triangle [3,2]/[4,2] or tetrahedral "
         "[2,1,1]/[2,2,1] grids with 2-9 subproblems - where some faces are owned by >= 3 subproblems, for all three schemes) x optional second split x optional numba run x optional partial "
         "rediscretisation (mode cells/faces/nodes, 1-3 random ids, parameters changed on the ids or not, applied fresh + in place "
-        "via the parameter flag or via update_discretization()); non-trivial = some face is owned by >= 2 real subproblems or a "
+        "via the parameter flag or via update_discretization(); 20-25% of the cases are the stratum 'partial update x split': Cartesian 6x6/7x6, "
+        "triangles 4x4/5x4, Cartesian 4x4x4 with partition_arguments (num_subproblems 2/3/5 or max_memory) passed to the PARTIAL discretisation so "
+        "that the extracted active subgrid is itself split into >= 2 subproblems); non-trivial = some face is owned by >= 2 real subproblems or a "
         "partial update is present (the maximal ownership count per scheme is reported in the input distribution); distinct = distinct case JSON")
 TRUSTED = [
     "modelled, not verified: the local MPxA discretisation itself (what each subproblem computes) - it enters the theorems only through "
@@ -145,7 +149,31 @@ def gen_case(rng, tier):
             via = "method" if mode != "nodes" else "none"  # the flag path of Biot is a recorded finding; keep most Biot cases comparable
         case["partial"] = {"mode": mode, "ids": [rng.randint(0, 9999) for _ in range(rng.randint(1, 3))],
                            "change": mode != "nodes" and rng.random() < 0.6, "via": via}
+    if rng.random() < (0.25 if big else 0.2):
+        case = _gen_partial_split(rng, big)
     return case
+
+
+def _gen_partial_split(rng, big):
+    """Stratum "partial update x split": a grid large enough that the stencil of the specified cells/faces/nodes is a proper
+    subgrid, which is then itself split into >= 2 subproblems (num_subproblems 2/3/5 or max_memory driven)."""
+    scheme = rng.choice(["mpfa", "mpfa", "mpsa", "biot"])
+    r = rng.random()
+    if r < 0.45:
+        grid = {"type": "cart", "dims": [rng.randint(6, 7), 6], "pert": rng.choice([0, rng.randint(1, 999)])}
+    elif r < 0.8:
+        grid = {"type": "tri", "dims": [rng.randint(4, 5), 4], "pert": rng.choice([0, rng.randint(1, 999)])}
+    else:
+        scheme = "mpfa" if not big else rng.choice(["mpfa", "mpsa"])
+        grid = {"type": "cart", "dims": [4, 4, 4], "pert": 0}
+    mode = rng.choice(["cells", "faces", "nodes"])
+    via = rng.choice(["flag", "flag", "method"]) if mode != "nodes" else rng.choice(["flag", "none"])
+    psplit = {"num_subproblems": rng.choice([2, 3, 5])} if rng.random() < 0.7 else {"max_memory_div": rng.choice([3, 5, 8])}
+    return {"grid": grid, "scheme": scheme, "pseed": rng.randint(0, 10**6), "dir": [rng.randint(0, 999) for _ in range(rng.choice([0, 2]))],
+            "split": {"num_subproblems": rng.choice([2, 3])}, "split2": None, "numba": False,
+            "partial": {"mode": mode, "ids": [rng.randint(0, 9999) for _ in range(rng.randint(1, 2))],
+                        "change": mode != "nodes" and rng.random() < 0.6, "via": via, "split": psplit},
+            "mats": [rng.randint(0, 99)]}
 
 
 # ----------------------------------------------------------------------------- real code: set-up
@@ -461,8 +489,13 @@ def _compute_inner(case):
                 ci, fi = fv.cell_ind_for_partial_update(g, cells=spec_ids, faces=np.array([], dtype=int))
                 rec["cellind_empty_faces"] = {"cells": sorted({int(x) for x in ci}), "faces": sorted({int(x) for x in fi})}
         # fresh partial discretisation (new parameters, empty matrix dictionary)
+        ppa = None
+        if part.get("split"):
+            ppa, _pk, pmm, pns = _partition_args(case, g, part["split"])
         p = _params(case, g, new=True)
         p["specified_" + mode] = spec_ids
+        if ppa:
+            p["partition_arguments"] = ppa
         try:
             rec["fresh"] = _mats(_run(scheme, g, p))
             af = np.asarray(p["active_faces"]).astype(int)
@@ -488,6 +521,16 @@ def _compute_inner(case):
             Q = _restrict_params(case, D, g, Pn, ac, sub, faces)
             fields = _local_fields(scheme, D, sub, Q, sub, np.arange(sub.num_cells), np.arange(sub.num_faces), g)
             rec["active_sub"] = {"F": af, "C": rec["complete_update_cells"], "l2gc": ac, "l2gf": np.asarray(faces).astype(int), "fields": fields}
+            if ppa and sub.num_cells < g.num_cells:
+                # the active grid is itself split: its real decomposition and local matrices (numbering of the active grid)
+                peakA = D._estimate_peak_memory(sub) if scheme == "mpfa" else D._estimate_peak_memory_mpsa(sub)
+                inner = []
+                for sub2, F2, C2, l2gc2, l2gf2 in fv.subproblems(sub, peakA, pmm, pns):
+                    f2 = _local_fields(scheme, D, sub, Q, sub2, l2gc2, l2gf2, g)
+                    inner.append({"F": np.asarray(F2).astype(int), "C": np.asarray(C2).astype(int), "l2gc": np.asarray(l2gc2).astype(int),
+                                  "l2gf": np.asarray(l2gf2).astype(int), "fields": f2})
+                rec["active_inner"] = inner
+                rec["active_nf"], rec["active_nc"] = sub.num_faces, sub.num_cells
         except Exception as e:
             rec["fresh"] = _exc(e)
         # update of an existing (old-parameter) discretisation
@@ -497,6 +540,8 @@ def _compute_inner(case):
                 pn = _params(case, g, new=True)
                 pn["update_discretization"] = True
                 pn["specified_" + mode] = spec_ids
+                if ppa:
+                    pn["partition_arguments"] = ppa
                 d[pp.PARAMETERS][KW] = pn
                 with warnings.catch_warnings():
                     warnings.simplefilter("ignore")
@@ -508,6 +553,8 @@ def _compute_inner(case):
             try:
                 d = _run(scheme, g, _params(case, g))
                 d[pp.PARAMETERS][KW] = _params(case, g, new=True)
+                if ppa:
+                    d[pp.PARAMETERS][KW]["partition_arguments"] = ppa
                 d["update_discretization"] = {"modified_" + mode: ids}
                 with warnings.catch_warnings():
                     warnings.simplefilter("ignore")
@@ -601,8 +648,17 @@ def model_ops(case):
         ops.append({"op": "gluecoded" if case["scheme"] == "mpfa" else "glue", "tag": f"split:{n}", "ndr": ndr, "ndc": ndc,
                     "divide": rowkind == "face", "nrow": nrow, "subs": [_sub_json(s, meta) for s in rec["subs"]]})
         if case.get("partial") and "active_sub" in rec:
-            ops.append({"op": "glue", "tag": f"fresh:{n}", "ndr": ndr, "ndc": ndc, "divide": False, "nrow": nrow, "store": True,
-                        "subs": [_sub_json(rec["active_sub"], meta)]})
+            if "active_inner" in rec:
+                a = rec["active_sub"]
+                ops.append({"op": "fresh2", "tag": f"fresh:{n}", "ndr": ndr, "ndc": ndc, "divide": rowkind == "face",
+                            "coded": case["scheme"] == "mpfa", "nrow": rec["active_nf"] if rowkind == "face" else rec["active_nc"],
+                            "subs": [_sub_json(x, meta) for x in rec["active_inner"]],
+                            "outer": {"own": [int(x) for x in (a["F"] if rowkind == "face" else a["C"])],
+                                      "l2gR": [int(x) for x in (a["l2gf"] if rowkind == "face" else a["l2gc"])],
+                                      "l2gC": [int(x) for x in (a["l2gf"] if colkind == "face" else a["l2gc"])]}})
+            else:
+                ops.append({"op": "glue", "tag": f"fresh:{n}", "ndr": ndr, "ndc": ndc, "divide": False, "nrow": nrow, "store": True,
+                            "subs": [_sub_json(rec["active_sub"], meta)]})
             if rec.get("updated") is not None:
                 r, c, v = _coo(rec["whole"][n])
                 active = rec["active_faces"] if rowkind == "face" else rec["complete_update_cells"]
@@ -919,6 +975,8 @@ def shrink_candidates(case):
                 yield dict(case, partial=dict(p, ids=p["ids"][:i] + p["ids"][i + 1:]))
         if p["change"]:
             yield dict(case, partial=dict(p, change=False))
+        if p.get("split") and p["split"].get("num_subproblems", 0) > 2:
+            yield dict(case, partial=dict(p, split={"num_subproblems": 2}))
     if case["dir"]:
         yield dict(case, dir=case["dir"][1:])
     g = case["grid"]
@@ -977,4 +1035,12 @@ def stats(cases, impl_outs):
             out["partial_mode"][p["mode"]] = out["partial_mode"].get(p["mode"], 0) + 1
             out["partial_via"][p["via"]] = out["partial_via"].get(p["via"], 0) + 1
             out["parameters_changed"] += bool(p["change"])
+            if "active_inner" in rec:
+                ps = out.setdefault("partial_x_split", {"cases": 0, "by_scheme": {}, "by_mode": {}, "active_subproblems": {}, "max_active_face_owners": 0})
+                ps["cases"] += 1
+                ps["by_scheme"][c["scheme"]] = ps["by_scheme"].get(c["scheme"], 0) + 1
+                ps["by_mode"][p["mode"]] = ps["by_mode"].get(p["mode"], 0) + 1
+                k = str(len(rec["active_inner"]))
+                ps["active_subproblems"][k] = ps["active_subproblems"].get(k, 0) + 1
+                ps["max_active_face_owners"] = max(ps["max_active_face_owners"], int(np.bincount(np.concatenate([x["F"] for x in rec["active_inner"]])).max()))
     return out
